@@ -91,9 +91,40 @@ def line_circle_branch(line_p, line_d, circ):
     return m0sqr, b1, r * m0sqr
 
 
+def disk_class(case):
+    """input class of a disk_to_disk call, replicating the function's own case split (floats):
+    'coplanar' (its same-plane special case), 'parallel-offset', 'centres-on-line', 'general'"""
+    A, B = case["A"], case["B"]
+    n1, n2, c1, c2 = A["n"], B["n"], A["c"], B["c"]
+    dt = lambda a, b: sum(a[i] * b[i] for i in range(3))
+    cr = pl.cross(n1, n2)
+    if dt(cr, cr) < 1e-8:
+        d1, d2 = dt(c1, n1), dt(c2, n2)
+        mom = [n1[i] * d2 - n2[i] * d1 for i in range(3)]
+        return "coplanar" if dt(mom, mom) < 1e-8 else "parallel-offset"
+    sin = math.sqrt(dt(cr, cr))
+    diff = [c1[i] - c2[i] for i in range(3)]
+    h1 = abs(dt(diff, n2)) / sin
+    h2 = abs(dt(diff, n1)) / sin
+    return "centres-on-line" if h1 + h2 <= 1e-7 else "general"
+
+
+def circle_m0sqr(case):
+    if case["A"]["kind"] == "line":
+        d = case["A"]["d"]
+    else:
+        s, e = case["A"]["s"], case["A"]["e"]
+        d = pl.unit([e[i] - s[i] for i in range(3)])
+    cr = pl.cross(d, case["B"]["n"])
+    return sum(x * x for x in cr)
+
+
 def known_id(case, r):
-    """id of the known finding whose predicate the input satisfies, else None"""
+    """id of the C11 known finding whose predicate the input satisfies, else None"""
     fn = case["fn"]
+    if fn in ("line_to_circle", "line_segment_to_circle"):
+        if 0.0 < circle_m0sqr(case) < 1e-20:
+            return "F23"          # parallel to the normal up to rounding, exact `> 0.0` test
     if fn == "line_segment_to_circle":
         if r.get("on_line") is False:
             return "F10"          # endpoint clamp arm taken
@@ -107,9 +138,11 @@ def known_id(case, r):
         if rm0 > b1 > 0.0:
             return "F8"           # the arm that uses the mis-transcribed s_hat
     if fn == "disk_to_disk":
-        n1, n2 = case["A"]["n"], case["B"]["n"]
-        if any(abs(x) > 0 for x in pl.cross(n1, n2)):
+        cls = disk_class(case)
+        if cls == "general":
             return "F11"          # non-parallel disks: alternating projection arm
+        if cls == "coplanar" and math.dist(case["A"]["c"], case["B"]["c"]) < case["A"]["r"] + case["B"]["r"]:
+            return "F22"
     return None
 
 
